@@ -438,6 +438,13 @@ int vh_cal(void)
 	    const char **k; LIB(k = vnacal_property_keys(cal[c], ci, "%s", d));
 	    res(k != NULL, 0);
 	    if (k != NULL) { for (const char **kp = k; *kp; ++kp) vh_out_hexbytes(*kp); LIB(free(k)); }
+	} else if (strcmp(pop, "set_subtree") == 0) {
+	    vnaproperty_t **anchor; LIB(anchor = vnacal_property_set_subtree(cal[c], ci, "%s", d)); res(anchor != NULL, 0);
+	} else if (strcmp(pop, "digest") == 0) {	/* the whole subtree, as `pt r digest` prints a register */
+	    extern void vh_prop_walk(const vnaproperty_t *node);
+	    vnaproperty_t *sub; LIB(sub = vnacal_property_get_subtree(cal[c], ci, "%s", d));
+	    vh_out("ok ");
+	    OBS(vh_prop_walk(sub));
 	} else { free(d); return -1; }
 	free(d);
 	return 0;
